@@ -7,11 +7,13 @@ model judged).  Markers whose id starts with Z belong to the scaffolding and are
 compared (it is the body's when the head succeeds).
 
     if LINE              if vmk Z7 3            while LINE
-        vmk Z8 0             vmk Z6 0               break
-    fi                   else if LINE           done
-                             vmk Z8 0
+        vmk Z8 0             vmk Z6 0               vmk Z8 0
+    fi                   else if LINE               break
+                             vmk Z8 0           done
                          fi
-"""
+
+The body (marker Z8) must run exactly when the plain line ends with status 0 - the status of a list being that of its last
+executed command."""
 import json
 import re
 
@@ -21,7 +23,7 @@ TEMPL = {
     "plain": "%s\n",
     "if-head": "if %s\n    vmk Z8 0\nfi\n",
     "elseif-head": "if vmk Z7 3\n    vmk Z6 0\nelse if %s\n    vmk Z8 0\nfi\n",
-    "while-head": "while %s\n    break\ndone\n",
+    "while-head": "while %s\n    vmk Z8 0\n    break\ndone\n",
 }
 _KEEP = ("h", "argv", "id", "tag", "stdin", "st", "k", "env", "ev", "nread", "nwritten", "sum")
 _SRE = re.compile(r"/(?:dev/shm|[^ ]*/\.work)/vf-\d+/c\d+")
@@ -92,6 +94,12 @@ def check_heads(rep, jobs, rnd, n, tag):
             rep.cov["evaluations"] += 1
             o = observe(r)
             diff = [k for k in ("timed_out", "recs", "files", "stdout", "stderr") if o[k] != base[k]]
+            if not diff and not j["text"].rstrip().endswith("&") and rs[0].get("status") is not None and not base["timed_out"]:
+                body = sum(1 for x in r.get("log", []) if x.get("id") == "Z8")
+                if body != (1 if rs[0]["status"] == 0 else 0):
+                    diff = ["branch"]
+                    base["branch"] = "plain line ends with status %s" % rs[0]["status"]
+                    o["branch"] = "body ran %d times" % body
             if diff:
                 bad += 1
                 rep.violation("head/%s/%s" % (v, diff[0]),
